@@ -370,12 +370,24 @@ func (h *c11Hist) applyReal(o storeOp) (out string) {
 			return fmt.Sprintf("id-not-seen-at-create-raw:%s", id)
 		}
 		return "ok"
+	}
+	// mutations reach the store directly (POP3, retention) or through the message manager (REST, web UI, Go client): every other
+	// operation of a history takes the manager's route, so its crash points are those of the manager-level operation
+	var via interface {
+		MarkSeen(mailbox, id string) error
+		RemoveMessage(mailbox, id string) error
+		PurgeMessages(mailbox string) error
+	} = h.st
+	if len(h.trace)%2 == 1 {
+		via = &message.StoreManager{Store: h.st}
+	}
+	switch o.kind {
 	case "seen":
-		return errClass(h.st.MarkSeen(o.box, h.realID(o.box, o.id)))
+		return errClass(via.MarkSeen(o.box, h.realID(o.box, o.id)))
 	case "rm":
-		return errClass(h.st.RemoveMessage(o.box, h.realID(o.box, o.id)))
+		return errClass(via.RemoveMessage(o.box, h.realID(o.box, o.id)))
 	case "purge":
-		return errClass(h.st.PurgeMessages(o.box))
+		return errClass(via.PurgeMessages(o.box))
 	}
 	return "bad-op"
 }
